@@ -99,7 +99,14 @@ func traverseAll(pj *simdjson.ParsedJson) (what string) {
 			what = fmt.Sprintf("PANIC while traversing the returned result: %v", r)
 		}
 	}()
+	// the reference walkers recurse once per nesting level (about 1 KB of stack each): beyond
+	// 200000 levels only the iterative readers run (flat AdvanceInto walk, MarshalJSON,
+	// FindElement, per-container calls); Go's own limit is a 1 GB stack
+	veryDeep := tapeDepth(pj) > 200000
 	for ci, o := range walkCombos {
+		if veryDeep {
+			break
+		}
 		if len(pj.Tape) > 1000 && ci != 0 && ci != 2 && ci != 5 {
 			continue // large tapes: three of the six traversal combinations (every API family still runs)
 		}
